@@ -1,4 +1,5 @@
 import Bridge.Rules
+import Bridge.Names
 import Props.C05
 /-!
 # C05 over the constructor guards generated from `_serializable`
@@ -6,6 +7,10 @@ import Props.C05
 The width, capacity, arity, version and port-ID guards are translated from the constructors of the working tree of /repo on
 every run; the generated code accepts exactly the parameter values that the static rules of the model accept (about which
 `C05.iff` is proved).
+
+The name rules (`_name.py`) are translated too: the character-set constants, the table of disallowed words and patterns - every
+`re.compile` pattern parsed from its source text into the regex AST of `PyRegex.lean`, whose matcher is proved to decide the
+language of the expression (`Py.Rx.fullmatch_iff`) - and `check_name` itself, statement by statement.
 -/
 open Rules Bridge
 
@@ -47,3 +52,69 @@ theorem C05.gen_version_port (major minor : Nat) (srv : Bool) (pid : Option Nat)
 
 example : Gen.CompositeType.check_version_and_port 1 0 false (some 8191) = .ok () ∧
     Gen.CompositeType.check_version_and_port 0 0 false none = .error (.other "InvalidVersionError") := by decide
+
+/-! ### names -/
+
+/-- For EVERY string the `check_name` generated from the working tree returns normally exactly when the model's `checkName`
+    accepts the name - i.e. exactly when the declarative name rule `NameOk` holds (non-empty, `[A-Za-z_][A-Za-z0-9_]*`, not a
+    reserved word or pattern in any letter case) - and raises `InvalidNameError`, nothing else, otherwise.  In particular the
+    translation's own failure modes (`IndexError`, `AttributeError`, a non-ASCII subject of `lower()` / `match`) never occur. -/
+theorem C05.gen_name_rule (name : String) :
+    Gen.Names.check_name name.toList = (if checkName name then .ok () else .error (.other "InvalidNameError")) ∧
+    (Gen.Names.check_name name.toList = .ok () ↔ NameOk name) ∧
+    (Gen.Names.check_name name.toList ≠ .ok () ↔ Gen.Names.check_name name.toList = .error (.other "InvalidNameError")) := by
+  have h := Bridge.Names.check_name_eq name
+  refine ⟨h, ?_, ?_⟩
+  · rw [h, ← checkName_iff]
+    cases checkName name <;> simp
+  · rw [h]
+    cases checkName name <;> simp [Bridge.Names.E]
+
+example : Gen.Names.check_name "uInt7".toList = .error (.other "InvalidNameError") ∧
+    Gen.Names.check_name "COM1".toList = .error (.other "InvalidNameError") ∧
+    Gen.Names.check_name "Q1_2".toList = .error (.other "InvalidNameError") ∧
+    Gen.Names.check_name "_a_".toList = .error (.other "InvalidNameError") ∧
+    Gen.Names.check_name "Aux".toList = .error (.other "InvalidNameError") ∧
+    Gen.Names.check_name "a-b".toList = .error (.other "InvalidNameError") ∧
+    Gen.Names.check_name "".toList = .error (.other "InvalidNameError") ∧
+    Gen.Names.check_name "com10".toList = .ok () ∧ Gen.Names.check_name "q1_".toList = .ok () ∧
+    Gen.Names.check_name "Bool1".toList = .ok () ∧ Gen.Names.check_name "_a".toList = .ok () := by
+  simp only [(C05.gen_name_rule _).1]
+  decide
+
+/-- The generated table of disallowed names - plain words and the regular expressions parsed from the source, matched with the
+    semantics of `Pattern.match` (`Py.Rx.pyMatch`, final `$` included) - hits a name of valid characters exactly when the name is
+    `Reserved`: one of the words, or in the language of one of `void\d*`, `u?int\d*`, `float\d*`, `u?q\d+_\d+`, `com\d`, `lpt\d`,
+    `_.*_` (spelled out as concatenations in `Rules.Reserved`). -/
+theorem C05.gen_reserved_table (n : List Char) (h : ∀ c ∈ n, validCont c = true) :
+    Gen.Names.DISALLOWED_NAME_PATTERNS.any (Bridge.Names.hits n) = true ↔ Reserved n := by
+  rw [Bridge.Names.table_any n h]; exact reserved_iff n
+
+example : Reserved "uq16_8".toList ∧ (∀ c ∈ "uq16_8".toList, validCont c = true) ∧
+    Gen.Names.DISALLOWED_NAME_PATTERNS.any (Bridge.Names.hits "uq16_8".toList) = true :=
+  have h : ∀ c ∈ "uq16_8".toList, validCont c = true := by decide
+  have r : Reserved "uq16_8".toList := (reserved_iff _).mp (by decide)
+  ⟨r, h, (C05.gen_reserved_table _ h).mpr r⟩
+
+/-- Each generated pattern, as a language: the executable matcher applied to the parsed pattern accepts exactly the strings the
+    corresponding hand-written matcher of the model accepts, for every subject (`_.*_`: every subject without a line feed, which
+    `.` does not match). -/
+theorem C05.gen_patterns (s : List Char) :
+    (Py.Rx.Matches (.seq (.chr 'v') (.seq (.chr 'o') (.seq (.chr 'i') (.seq (.chr 'd') (.star .digit))))) s ↔
+      matchPrefixDigits "void".toList s = true) ∧
+    (Py.Rx.Matches (.seq (.opt (.chr 'u')) (.seq (.chr 'i') (.seq (.chr 'n') (.seq (.chr 't') (.star .digit))))) s ↔
+      (matchPrefixDigits "uint".toList s || matchPrefixDigits "int".toList s) = true) ∧
+    (Py.Rx.Matches (.seq (.opt (.chr 'u')) (.seq (.chr 'q') (.seq (.plus .digit) (.seq (.chr '_') (.plus .digit))))) s ↔
+      matchQ s = true) ∧
+    (Py.Rx.Matches (.seq (.chr 'f') (.seq (.chr 'l') (.seq (.chr 'o') (.seq (.chr 'a') (.seq (.chr 't') (.star .digit)))))) s ↔
+      matchPrefixDigits "float".toList s = true) ∧
+    (Py.Rx.Matches (.seq (.chr 'c') (.seq (.chr 'o') (.seq (.chr 'm') .digit))) s ↔ matchPrefixDigit "com".toList s = true) ∧
+    (Py.Rx.Matches (.seq (.chr 'l') (.seq (.chr 'p') (.seq (.chr 't') .digit))) s ↔ matchPrefixDigit "lpt".toList s = true) ∧
+    ((∀ c ∈ s, c ≠ '\n') →
+      (Py.Rx.Matches (.seq (.chr '_') (.seq (.star .any) (.chr '_'))) s ↔ matchUnderscores s = true)) := by
+  simp only [← Py.Rx.fullmatch_iff]
+  exact ⟨by rw [Bridge.Names.pat_void], by rw [Bridge.Names.pat_int], by rw [Bridge.Names.pat_q], by rw [Bridge.Names.pat_float],
+    by rw [Bridge.Names.pat_com], by rw [Bridge.Names.pat_lpt], fun h => by rw [Bridge.Names.pat_underscores s h]⟩
+
+example : Py.Rx.Matches (.seq (.chr 'c') (.seq (.chr 'o') (.seq (.chr 'm') .digit))) "com7".toList ∧
+    ¬ Py.Rx.Matches (.seq (.chr 'c') (.seq (.chr 'o') (.seq (.chr 'm') .digit))) "com10".toList := by decide
